@@ -6,11 +6,23 @@ PLAN = dict(
         quick=[(R, "quick", 16), (D, "small", 16)],
         thorough=[(R, "thorough", 16), (D, "quick", 16)],
     ),
-    rule=("cases are entry sequences of length 0-30 built round-robin from 13 scenarios (tiny, plain, consecutive "
+    rule=("cases are entry sequences built round-robin from 15 scenarios (tiny, plain, consecutive "
           "@ignore, trailing @ignore, @ignore separated from its file by 1-3 other commands rotating through all 15 "
           "other kinds, @ignore before the first file, no @cwd, @cwd with trailing '/', non-UTF-8 @cwd, @cwd change "
-          "between an @ignore and its file, several @name/@display, @option preserve once/repeated, random mix) "
-          "with random filler, rendered by C14's line generator (aliases, extra blanks, blank lines, final newline "
+          "between an @ignore and its file, several @name/@display, @option preserve once/repeated, random mix "
+          "(all of length 0-30), 'realistic' - a packing list as pkg_create writes it: RCS-id comment, @name, "
+          "dependencies, conflicts, @display, @cwd, groups of files with @mode/@owner/@group set and reset, "
+          "@ignore'd +METADATA files, @exec/@unexec pairs, @pkgdir, @cwd changes, '@unexec rmdir %D/..' and @dirrm "
+          "at the end - and 'long' with 31-400 entries) "
+          "with random filler; one sequence in five repeats 1-3 of its lines verbatim (duplicates must stay in every "
+          "view). Arguments are random bytes and, alongside, pools of realistic pkgsrc texts for every kind "
+          "(@exec/@unexec: 'rmdir %D/share/foo 2>/dev/null || true', '/bin/rmdir -p %D/x', '${MKDIR} %D/y', "
+          "'install-info --delete ..', 'true', ':', '%D/bin/x' ...; @cwd: '/usr/pkg', '/usr/pkg//share', "
+          "'/usr/pkg/./x', '/usr/pkg/x/.', '/', '.', '..' ...; comments '$NetBSD$', 'DEPENDS', 'ignore'; "
+          "relative, absolute and non-canonical @pkgdir/@dirrm; modes, owners, groups; file names '+CONTENTS', "
+          "'info/dir', '*.gz', '*.orig', '*~', absolute names, './x'): a view holds every entry of its kinds "
+          "whatever the argument says. Sequences are rendered by C14's line generator (aliases, extra blanks, "
+          "blank lines, final newline "
           "toggled) and parsed; all 12 queries are compared with one reference fold over the generated sequence, "
           "plus the cross-view law that the four file views hold the same files in the same order. Non-trivial = "
           "at least one ignored file and at least one @cwd change; distinct = distinct document bytes by 64-bit "
@@ -27,9 +39,9 @@ PLAN = dict(
     level_text=("Exploration: ~4x10^5 (quick) to ~3x10^6 (thorough) parsed packing lists, 13 comparisons each; held "
                 "means held on the sequences generated, whose ignore-pattern, separator-kind, prefix and multiplicity "
                 "classes are all populated."),
-    level_note="trusts the reference fold and the generator's reach; sequences longer than 30 entries are not generated",
+    level_note="trusts the reference fold and the generator's reach; sequences longer than 400 entries are not generated",
     not_explored=[
-        "sequences longer than 30 entries",
+        "sequences longer than 400 entries",
         "Plist values not produced by Plist::from_bytes (there is no other public constructor besides the empty one)",
         "@cwd arguments beginning with a byte whose white-space status is disputed (DESIGN.md section 4)",
     ],
